@@ -84,7 +84,11 @@ pub fn normalise_panic(msg: &str) -> String {
         }
     }
     if out.len() > 160 {
-        out.truncate(160);
+        let mut cut = 160;
+        while !out.is_char_boundary(cut) {
+            cut -= 1;
+        }
+        out.truncate(cut);
     }
     out
 }
